@@ -462,7 +462,21 @@ func (env *SpecEnv) evalSum(e ESum) SV {
 		sn := c.Apply(si.fn, n)
 		sn1 := c.Apply(si.fn, c.Add(n, c.Int(1)))
 		x.assumeGlobal(c.Eq(c.Apply(si.fn, lo), c.Int(0)))
-		x.assumeGlobal(c.Forall([]*Term{n}, c.Implies(c.Le(lo, n), c.Eq(sn1, c.Add(sn, fn))), []*Term{sn1}))
+		x.assumeGlobal(c.Forall([]*Term{n}, c.Implies(c.Le(lo, n), c.Eq(sn1, c.Add(sn, fn))), []*Term{sn}))
+		// lemma: every summand is non-negative (checked once per sum function) ...
+		if !x.dry {
+			name := fmt.Sprintf("%s/lemma[sum-nonneg:%s]", x.unitName, si.fn.Name)
+			goal := c.Forall([]*Term{n}, c.Implies(c.Le(lo, n), c.Le(c.Int(0), fn)))
+			o := &Oblig{Name: name, Kind: "lemma", Label: "sum-nonneg", Unit: x.unitName, Goal: goal,
+				NAssume: len(x.assumes), Src: "summands are non-negative: " + e.Pos, Self: -1}
+			x.obligs = append(x.obligs, o)
+		}
+		// ... hence partial sums are monotone (induction on b-a; meta-theorem of the engine)
+		a := c.NewBound("a", SInt)
+		b := c.NewBound("b", SInt)
+		sa := c.Apply(si.fn, a)
+		sb := c.Apply(si.fn, b)
+		x.assumeGlobal(c.Forall([]*Term{a, b}, c.Implies(c.And(c.Le(lo, a), c.Le(a, b)), c.Le(sa, sb)), []*Term{sa, sb}))
 		// extensionality against earlier sums from the same source position
 		for _, other := range x.sumList {
 			if other.pos != si.pos {
@@ -571,7 +585,6 @@ func (env *SpecEnv) evalSel(e ESel) SV {
 
 func (env *SpecEnv) evalIndex(e EIndex) SV {
 	x := env.X
-	c := x.C
 	base := env.eval(e.X)
 	switch b := base.V.(type) {
 	case VSlice:
@@ -585,7 +598,7 @@ func (env *SpecEnv) evalIndex(e EIndex) SV {
 		if elem == nil {
 			specFail("indexing slice of unknown element type")
 		}
-		return SV{x.loadElemSpec(env.Cur, elem, b.Arr, c.Add(b.Off, idx)), elem}
+		return SV{x.loadElemSpec(env.Cur, elem, b.Arr, x.slot(b.Off, idx)), elem}
 	case VInt:
 		if base.T != nil {
 			switch u := typeUnder(base.T).(type) {
